@@ -157,9 +157,6 @@ def split_iter(src, sep=None, maxsplit=None):
 
     if maxsplit is not None:
         maxsplit = int(maxsplit)
-        if maxsplit == 0:
-            yield [src]
-            return
 
     if callable(sep):
         sep_func = sep
@@ -173,7 +170,12 @@ def split_iter(src, sep=None, maxsplit=None):
     split_count = 0
     for s in src:
         if maxsplit is not None and split_count >= maxsplit:
-            def sep_func(x): return False
+            # no more splitting, the rest is one group; like str.split,
+            # sep=None still drops the separators leading that group
+            if sep is None and not cur_group and sep_func(s):
+                continue
+            cur_group.append(s)
+            continue
         if sep_func(s):
             if sep is None and not cur_group:
                 # If sep is none, str.split() "groups" separators
